@@ -132,7 +132,8 @@ def ip_alphabet(tu, fnames):
     consts, masks = scanex.function_constants([tu.fn(f) for f in fnames])
     # characters of string literals are set members, not individual comparisons
     consts = {c for c in consts if not (0x30 <= c <= 0x39 or chr(c) in 'abcdefABCDEF') or c == 0x30}
-    reps, class_of, classes = scanex.byte_classes(consts, masks, iplit.PREDICATE_SETS)
+    der = [d for d in scanex.derived_ops([tu.fn(f) for f in fnames]) if not (d[0] == '-' and d[1] == 0x30)]     # digits are singletons already
+    reps, class_of, classes = scanex.byte_classes(consts, masks, iplit.PREDICATE_SETS, derived=der)
     return [r for r in reps if r != BRACKET and r != 0], classes
 
 
